@@ -331,44 +331,7 @@ func c15Tickets(c *Ctx, p *Prog) {
 
 	// ---- the same two stream rules as for obfs4 (C01.R5, C05.R5)
 	readErrPriority(c, p, "R2", "transports/scramblesuit:(*ssConn).Read", "(*$M/transports/scramblesuit.ssConn).readPackets")
-	obR := c.Obl("R1", "transports/scramblesuit:(*ssConn).clientHandshake#remainder-kept", "after the server response was parsed the client drops exactly the n bytes the parser consumed (receiveBuffer.Next(n), n the parser's count under err==nil) and never resets or truncates the buffer: packets that arrived in the same segment as the end of the response stay for the packet reader")
-	if chs := p.Func("transports/scramblesuit:(*ssConn).clientHandshake"); chs == nil {
-		obR.Undecide("clientHandshake not found")
-	} else {
-		cff := p.Facts(chs)
-		var next *ssa.Call
-		badR := ""
-		allInstrs(chs, func(in ssa.Instruction) {
-			call, ok := in.(*ssa.Call)
-			if !ok {
-				return
-			}
-			r, m, args := recvOf(call)
-			if r == nil || !isFieldLoad(r, tSSConn, "receiveBuffer") {
-				return
-			}
-			switch m {
-			case "Reset", "Truncate", "Read", "ReadByte", "WriteTo", "Grow":
-				badR = m + " of receiveBuffer at " + p.InstrPos(call) + " discards bytes that followed the handshake"
-			case "Next":
-				next = call
-				pc, idx := callOf(unspill(args[0]))
-				if pc == nil || idx != 0 || pc.Common().StaticCallee() == nil || !p.inModule(pc.Common().StaticCallee()) {
-					badR = "Next() is not given the count returned by the handshake parser"
-				} else if !hasFact(cff.NC(call.Block()), func(f Fact) bool { return FactErrNilOfCall(f, pc) }) {
-					badR = "Next(n) is reachable although the parser failed"
-				}
-			}
-		})
-		if next == nil && badR == "" {
-			badR = "the consumed handshake bytes are never removed with Next(n)"
-		}
-		if badR != "" {
-			obR.Violate("%s", badR)
-		} else {
-			obR.HoldNT("Next(n) at %s", p.InstrPos(next))
-		}
-	}
+	remainderRules(c, p, "R1", "R1", "transports/scramblesuit:(*ssConn).clientHandshake", "transports/scramblesuit:(*ssConn).readPackets", tSSConn, "")
 
 	// the store is written back whenever serialize reports success (also when it has become empty:
 	// a redeemed ticket must not survive a restart)
